@@ -4,6 +4,7 @@ open Model
 open Conv
 open Sexp
 open Common
+type string = Stdlib.String.t
 
 let mode_of_int = function 0 -> MUnsafe | 1 -> MSafe | _ -> MRaw
 let int_of_mode = function MUnsafe -> 0 | MSafe -> 1 | MRaw -> 2
